@@ -44,9 +44,20 @@ class CFG:
             t = b.term
             if t.discr is None or t.discr.place is None or not t.discr.place.is_local() or t.discr.kind not in ("move", "copy"):
                 continue
-            if any(st.kind == "assign" for st in b.stmts):
-                continue
             tl = t.discr.place.local
+            # J may copy the temporary into the local it switches on (`let not_found = matches!(..); if not_found`):
+            # follow pure copies backwards; anything else computed in J disables the threading
+            ok_j = True
+            for st in reversed(b.stmts):
+                if st.kind != "assign":
+                    continue
+                if st.lhs.is_local() and st.lhs.local == tl and st.rv.kind == "use" and st.rv.ops and \
+                        st.rv.ops[0].kind in ("move", "copy") and st.rv.ops[0].place.is_local():
+                    tl = st.rv.ops[0].place.local
+                    continue
+                ok_j = False
+            if not ok_j:
+                continue
             for p in list(self.pred[b.idx]):
                 pb = body.blocks[p]
                 if pb.term.kind != "goto":
